@@ -104,13 +104,20 @@ def extract(repo):
             tname = ntext(st.targets[0])
             if isinstance(v, ast.Call) and call_name(v) == 'csr_matrix':
                 # csr_matrix((np.array([c] * n), indices, ...))
-                consts = [x for x in ast.walk(v.args[0]) if isinstance(x, ast.List) and len(x.elts) == 1]
-                if consts:
-                    c = consts[0].elts[0]
-                    if isinstance(c, ast.Constant):
-                        coef = float(c.value)
-                    elif isinstance(c, ast.UnaryOp) and isinstance(c.op, ast.USub) and isinstance(c.operand, ast.Constant):
-                        coef = -float(c.operand.value)
+                from .r19_solver_siblings import _coef_sign
+                # sign of the +-1 coefficient vector, in any of its spellings; an outer minus flips it
+                first = v.args[0].elts[0] if isinstance(v.args[0], (ast.Tuple, ast.List)) and v.args[0].elts else v.args[0]
+                flip = 1
+                while isinstance(first, ast.UnaryOp) and isinstance(first.op, ast.USub):
+                    flip, first = -flip, first.operand
+                sg = _coef_sign(first)
+                if sg is None:
+                    consts = [x for x in ast.walk(first) if isinstance(x, ast.List) and len(x.elts) == 1]
+                    from .common import const_num
+                    k = const_num(consts[0].elts[0]) if consts else None
+                    sg = None if not k else (1 if k > 0 else -1)
+                if sg is not None:
+                    coef = float(flip * sg)
                 if mask not in ntext(v):
                     raise AnalysisError('R14: selector matrix of block %s does not use its own mask' % mask)
             elif 'const' in tname and isinstance(v, ast.Call) and call_name(v) == 'np.concatenate':
@@ -118,6 +125,11 @@ def extract(repo):
                 k = 1.0
                 if isinstance(last, ast.UnaryOp) and isinstance(last.op, ast.USub):
                     k, last = -1.0, last.operand
+                if isinstance(last, ast.Subscript) and isinstance(last.value, ast.UnaryOp) and \
+                        isinstance(last.value.op, ast.USub):
+                    # (-bound)[mask] == -(bound[mask])
+                    k = -k
+                    last = ast.Subscript(value=last.value.operand, slice=last.slice, ctx=ast.Load())
                 if not (isinstance(last, ast.Subscript) and ntext(last.slice) == mask):
                     raise AnalysisError('R14: right-hand side of block %s is `%s`' % (mask, ntext(last)[:40]))
                 which = 'ub' if ntext(last.value).endswith('.ub') else 'lb' if ntext(last.value).endswith('.lb') else None
@@ -175,9 +187,26 @@ def extract(repo):
         # is the block part of the matrix when the sign change is applied?
         b['flipped'] = flip_line is None or b['node'].lineno < flip_line
     # the objective row of the dual (dual_const) must be negated together with the row
-    neg_const = any(isinstance(n, ast.Assign) and isinstance(n.targets[0], ast.Subscript)
-                    and 'const' in ntext(n.targets[0].value) and ntext(n.targets[0].slice) == neg_mask
-                    and isinstance(n.value, ast.UnaryOp) for n in ast.walk(mod))
+    # the objective row of the dual (the `const` handed to the dual LinProg) must be negated together with
+    # the row:  c[mask] = -c[mask]  or  c[mask] *= -1
+    cname = None
+    for n in ast.walk(mod):
+        if isinstance(n, ast.Call) and isinstance(n.func, ast.Name) and n.func.id == 'LinProg' and len(n.args) >= 2 \
+                and isinstance(n.args[1], ast.Name):
+            cname = n.args[1].id
+    if cname is None:
+        raise AnalysisError('R14: the constant vector of the dual LinProg(..) is not a local')
+    neg_const = False
+    for n in ast.walk(mod):
+        if isinstance(n, ast.Assign) and isinstance(n.targets[0], ast.Subscript) and \
+                ntext(n.targets[0].value) == cname and ntext(n.targets[0].slice) == neg_mask and \
+                isinstance(n.value, ast.UnaryOp) and isinstance(n.value.op, ast.USub):
+            neg_const = True
+        if isinstance(n, ast.AugAssign) and isinstance(n.op, ast.Mult) and isinstance(n.target, ast.Subscript) and \
+                ntext(n.target.value) == cname and ntext(n.target.slice) == neg_mask and \
+                isinstance(n.value, ast.UnaryOp) and isinstance(n.value.op, ast.USub) and \
+                isinstance(n.value.operand, ast.Constant) and n.value.operand.value == 1:
+            neg_const = True
     return fi, masks, blocks, free_mask, neg_mask, neg_const
 
 
